@@ -49,6 +49,8 @@ type jcase struct {
 	Kind string `json:"kind"` // "history"
 	Name string `json:"name"`
 	Ops  []hop  `json:"ops"`
+	// set when a difference seen in the first execution did not show again: its signature
+	FirstOutcome string `json:"first_outcome,omitempty"`
 }
 
 // ---- live view ----
@@ -535,7 +537,58 @@ func parseSplits(v string) string {
 	return "[" + strings.Join(out, ";") + "]"
 }
 
+type pendingAdd struct {
+	kind, term, key string
+}
+
+// execution of one history on a fresh directory
+type execution struct {
+	adds  []pendingAdd
+	notes []string
+	dist  map[string]int
+	diff  bool // something differed across some restart
+	sig   string
+}
+
+// runHistory executes a history.  If anything differs across a restart the history is re-executed
+// twice on fresh directories and the difference is reported only if it shows again both times: a
+// genuine restart difference is a deterministic function of the history, while the storage engine was
+// seen to lose, now and then, a write acknowledged just before a kill (harness/cmd/killcycle).
 func runHistory(run *lib.Run, c jcase) {
+	first := execHistory(c)
+	pick := first
+	if first.diff {
+		run.Dist["retries"]++
+		again := 0
+		var clean *execution
+		for i := 0; i < 2; i++ {
+			e := execHistory(c)
+			if e.diff && e.sig == first.sig {
+				again++
+			} else if clean == nil {
+				ee := e
+				clean = &ee
+			}
+		}
+		if again < 2 && clean != nil {
+			run.Dist["flaky_crash_points"]++
+			c.FirstOutcome = first.sig
+			pick = *clean
+		}
+	}
+	for k, v := range pick.dist {
+		run.Dist[k] += v
+	}
+	run.Notes = append(run.Notes, pick.notes...)
+	for _, a := range pick.adds {
+		run.Add(a.kind, a.term, c, a.key)
+	}
+}
+
+func execHistory(c jcase) (ex execution) {
+	ex.dist = map[string]int{}
+	var sigs []string
+	defer func() { ex.sig = strings.Join(sigs, "|") }()
 	dir, _ := os.MkdirTemp("", "c03")
 	defer os.RemoveAll(dir)
 	p, err := dvh.Start(dvh.Opts{Dir: dir})
@@ -573,8 +626,10 @@ func runHistory(run *lib.Run, c jcase) {
 			}
 			np, err := dvh.Start(dvh.Opts{Dir: dir})
 			if err != nil {
-				run.Add("restart-failed", "(CGen 0 1%nat 1%nat)", c, "restart-failed")
-				run.Notes = append(run.Notes, "restart failed: "+err.Error())
+				ex.adds = append(ex.adds, pendingAdd{"restart-failed", "(CGen [(1%nat, 1%nat)])", "restart-failed"})
+				ex.notes = append(ex.notes, "restart failed: "+err.Error())
+				ex.diff = true
+				sigs = append(sigs, "restart-failed")
 				return
 			}
 			s.p = np
@@ -618,10 +673,20 @@ func runHistory(run *lib.Run, c jcase) {
 							}
 							return x[lo:hi]
 						}
-						run.Notes = append(run.Notes, fmt.Sprintf("%s restart %d: %s %s: before ...%q after ...%q", c.Name, restarts, k, before[i].Key, cut(bv), cut(av)))
+						ex.notes = append(ex.notes, fmt.Sprintf("%s restart %d: %s %s: before ...%q after ...%q", c.Name, restarts, k, before[i].Key, cut(bv), cut(av)))
 					}
 				}
 				kinds[k] = cnt
+			}
+			for _, k := range order {
+				if kinds[k][1] > 0 {
+					ex.diff = true
+					sigs = append(sigs, fmt.Sprintf("r%d:%s", restarts, k))
+				}
+			}
+			if reposB != reposA {
+				ex.diff = true
+				sigs = append(sigs, fmt.Sprintf("r%d:repos", restarts))
 			}
 			hasMerge := false
 			for _, seg := range append(append([]string{}, popSegs...), strings.Join(pops, ";")) {
@@ -632,7 +697,7 @@ func runHistory(run *lib.Run, c jcase) {
 			var gens []string
 			for _, k := range order {
 				if k == "branch-versions" && hasMerge {
-					run.Add("generic-merge", fmt.Sprintf("(CGenMerge [(%d%%nat, %d%%nat)])", kinds[k][0], kinds[k][1]), c, fmt.Sprintf("genm/%s/%d", c.Name, restarts))
+					ex.adds = append(ex.adds, pendingAdd{"generic-merge", fmt.Sprintf("(CGenMerge [(%d%%nat, %d%%nat)])", kinds[k][0], kinds[k][1]), fmt.Sprintf("genm/%s/%d", c.Name, restarts)})
 					continue
 				}
 				if k == "lm-splits" && mutVersions(s) > 1 {
@@ -644,14 +709,14 @@ func runHistory(run *lib.Run, c jcase) {
 					continue // compared through the models below
 				}
 				gens = append(gens, fmt.Sprintf("(%d%%nat, %d%%nat)", kinds[k][0], kinds[k][1]))
-				run.Dist["probes:"+k] += kinds[k][0]
-				run.Dist["diffs:"+k] += kinds[k][1]
+				ex.dist["probes:"+k] += kinds[k][0]
+				ex.dist["diffs:"+k] += kinds[k][1]
 			}
-			run.Add("generic", fmt.Sprintf("(CGen [%s])", strings.Join(gens, "; ")), c, fmt.Sprintf("gen/%s/%d", c.Name, restarts))
+			ex.adds = append(ex.adds, pendingAdd{"generic", fmt.Sprintf("(CGen [%s])", strings.Join(gens, "; ")), fmt.Sprintf("gen/%s/%d", c.Name, restarts)})
 			// repo metadata against the Persist model
 			segsNow := "[" + strings.Join(append(append([]string{}, popSegs...), "["+strings.Join(pops, "; ")+"]"), "; ") + "]"
-			run.Add("repos", fmt.Sprintf("(CRepos %s %s %s %s)", segsNow, reposB, reposA,
-				lib.CoqBool(kinds["repos-info"][1] == 0 && kinds["repo-info"][1] == 0)), c, fmt.Sprintf("repos/%s/%d", c.Name, restarts))
+			ex.adds = append(ex.adds, pendingAdd{"repos", fmt.Sprintf("(CRepos %s %s %s %s)", segsNow, reposB, reposA,
+				lib.CoqBool(kinds["repos-info"][1] == 0 && kinds["repo-info"][1] == 0)), fmt.Sprintf("repos/%s/%d", c.Name, restarts)})
 			// branch heads
 			hb, ha := headsOf(before), headsOf(after)
 			var hs []string
@@ -667,7 +732,7 @@ func runHistory(run *lib.Run, c jcase) {
 				}
 				hs = append(hs, fmt.Sprintf("(%d, %s, %s)", no, coqHead(hb[b]), coqHead(ha[b])))
 			}
-			run.Add("heads", fmt.Sprintf("(CHeads %s [%s])", segsNow, strings.Join(hs, "; ")), c, fmt.Sprintf("heads/%s/%d", c.Name, restarts))
+			ex.adds = append(ex.adds, pendingAdd{"heads", fmt.Sprintf("(CHeads %s [%s])", segsNow, strings.Join(hs, "; ")), fmt.Sprintf("heads/%s/%d", c.Name, restarts)})
 			popSegs = append(popSegs, "["+strings.Join(pops, "; ")+"]")
 			pops = nil
 			// label mapping and split records per version with mutations
@@ -680,7 +745,7 @@ func runHistory(run *lib.Run, c jcase) {
 					}
 					return ""
 				}
-				run.Add("extents", fmt.Sprintf("(CExtents %s %s)", lib.CoqBool(!strings.Contains(find0(before), "null")), lib.CoqBool(!strings.Contains(find0(after), "null"))), c, fmt.Sprintf("ext/%s/%d", c.Name, restarts))
+				ex.adds = append(ex.adds, pendingAdd{"extents", fmt.Sprintf("(CExtents %s %s)", lib.CoqBool(!strings.Contains(find0(before), "null")), lib.CoqBool(!strings.Contains(find0(after), "null"))), fmt.Sprintf("ext/%s/%d", c.Name, restarts)})
 				var vs []int
 				seenV := map[int]bool{}
 				for v := range s.mapops {
@@ -708,8 +773,8 @@ func runHistory(run *lib.Run, c jcase) {
 					// the split list of GET supervoxel-splits covers the ancestry; histories put all
 					// labelmap mutations into one version, so it is that version's list
 					segs := append(append([]string{}, s.mapsegs[v]...), "["+strings.Join(s.mapops[v], "; ")+"]")
-					run.Add("maplog", fmt.Sprintf("(CMapLog [%s] %s %s)", strings.Join(segs, "; "),
-						parseSplits(find(before, "lm-splits", fmt.Sprint(v))), parseSplits(find(after, "lm-splits", fmt.Sprint(v)))), c, fmt.Sprintf("maplog/%s/%d/%d", c.Name, restarts, v))
+					ex.adds = append(ex.adds, pendingAdd{"maplog", fmt.Sprintf("(CMapLog [%s] %s %s)", strings.Join(segs, "; "),
+						parseSplits(find(before, "lm-splits", fmt.Sprint(v))), parseSplits(find(after, "lm-splits", fmt.Sprint(v)))), fmt.Sprintf("maplog/%s/%d/%d", c.Name, restarts, v)})
 				}
 				for _, v := range vs {
 					s.mapsegs[v] = append(s.mapsegs[v], "["+strings.Join(s.mapops[v], "; ")+"]")
@@ -718,7 +783,7 @@ func runHistory(run *lib.Run, c jcase) {
 				var nb, na uint64
 				fmt.Sscanf(find(before, "lm-nextlabel", "1"), `200:{"nextlabel": %d}`, &nb)
 				fmt.Sscanf(find(after, "lm-nextlabel", "1"), `200:{"nextlabel": %d}`, &na)
-				run.Add("nextlabel", fmt.Sprintf("(CNext %d %d)", nb, na), c, fmt.Sprintf("next/%s/%d", c.Name, restarts))
+				ex.adds = append(ex.adds, pendingAdd{"nextlabel", fmt.Sprintf("(CNext %d %d)", nb, na), fmt.Sprintf("next/%s/%d", c.Name, restarts)})
 			}
 			continue
 		}
@@ -760,7 +825,8 @@ func runHistory(run *lib.Run, c jcase) {
 		}
 	}
 	s.p.Quit()
-	run.Dist["restarts"] += restarts
+	ex.dist["restarts"] += restarts
+	return
 }
 
 func corpus() []jcase {
